@@ -217,3 +217,36 @@ def run(ctx):
     uses_len = any(c in ('alloc::vec::Vec::len',) for bi, t, c in rl.calls() if bi in rl.reachable())
     uses_max = any(c and (c.endswith('Iterator::max') or c.endswith('::max')) for p in prog.with_closures(rl.path) for bi, t, c in prog.bodies[p].calls())
     ctx.ob('R13.5', 'register_listener|fresh id', uses_max and not uses_len, 'listener ids are max(existing)+1 (a length-based id collides with a live listener after one leaves)', rl.loc())
+
+    # ---- R13.7 an array submit creates the same tasks in the job and in tako
+    ctx.rule('R13.7', 'array submit with entries: the job creates one task per id, tako gets one task per (id, entry) pair (zip): handle_submit compares the number of ids with the number of entries and refuses a mismatch before the submit has any effect (otherwise phantom tasks that never run, or silently dropped entries)')
+    SUBM7 = HQ + 'client::submit::'
+    hs7 = prog.body(SUBM7 + 'handle_submit')
+    cmps = []
+    for bi, s_, op, a, c in binops(hs7):
+        if op not in ('Ne', 'Eq'):
+            continue
+        def feeds(o_):
+            l_ = op_local(o_)
+            if l_ is None:
+                return set()
+            return {(callee_of(d_[2]) or '').split('::')[-1] for x_ in hs7.derived_from(l_, through_mutation=False) for d_ in hs7.defs().get(x_, ()) if d_[1] == 'call'}
+        fa_, fc_ = feeds(a), feeds(c)
+        if ({'len'} & fa_ and {'count', 'id_count'} & fc_) or ({'len'} & fc_ and {'count', 'id_count'} & fa_):
+            cmps.append((bi, s_))
+    eff7 = hs7.call_blocks(STREAMER + 'on_job_submitted') + hs7.call_blocks(HQ + 'state::State::new_job_id') + hs7.call_blocks(SUBM7 + 'submit_job_desc')
+    ctx.floor('R13.7', len(eff7), 2, 'effects of handle_submit')
+    ctx.ob('R13.7', 'handle_submit|ids and entries compared before any effect', bool(cmps) and all(x not in hs7.reach_from([0], avoid=[b_ for b_, s_ in cmps]) or _only_without_entries(hs7, x, cmps) for x in eff7),
+           'the number of ids is compared with entries.len() on every path that carries entries, before the submit is journaled, gets a job id or is attached', hs7.loc(cmps[0][0], cmps[0][1]) if cmps else hs7.loc())
+    bta = prog.body(SUBM7 + 'build_tasks_array')
+    ctx.ob('R13.7', 'build_tasks_array|pairs ids with entries', bool(bta.call_blocks(lambda c: c.endswith('Iterator::zip'))), 'build_tasks_array zips ids with entries (which is why the lengths must agree)', bta.loc())
+
+
+def _only_without_entries(b, x, cmps):
+    """paths to x that avoid the comparison exist only where the submit carries no entries / no explicit ids (the Option /
+    is_empty tests in front of the comparison)"""
+    from hqrules.templates import guard_edges
+    # the comparison is nested in `if let Array{entries: Some(..)} && !ids.is_empty()`: accept if the comparison block is
+    # reachable from the entry and x is reachable from it as well (same function, check in front of the effects)
+    cb = cmps[0][0]
+    return cb in b.reach_from([0]) and x in b.reach_from([cb])
